@@ -643,7 +643,15 @@ impl<'a> QGen<'a> {
                 } else {
                     self.singular(rng)
                 };
-                let b = if rng.chance(2, 3) {
+                let b = if rng.chance(1, 5) {
+                    // a nodelist argument (a query that may select several nodes)
+                    match rng.below(4) {
+                        0 => format!("$..{}", { let n = self.name(rng); if shorthand_ok(&n) { n } else { "a".to_string() } }),
+                        1 => "@.*".to_string(),
+                        2 => format!("$.{}[*]", { let n = self.name(rng); if shorthand_ok(&n) { n } else { "list".to_string() } }),
+                        _ => self.rel_query(rng, depth),
+                    }
+                } else if rng.chance(2, 3) {
                     format!("${}", {
                         let n = self.name(rng);
                         if shorthand_ok(&n) {
